@@ -385,6 +385,7 @@ func runC02(c *Check) {
 		}
 	}
 	c.validityGateContent()
+	c.nilElementScans()
 	c.loopProgress("C02-R10", pathFns)
 }
 
